@@ -79,15 +79,18 @@ package xsync
 
 //@ -- twin-begin MapDisc
 //@ func (*Map).resizeInProgress
+//@   serves C13 C14
 //@   requires m != nil
 //@   ensures {C16} effect.nolock: nacquire() == 0 && nblocking() == 0
 //@   ensures {C03} post.value: res0 == (m.resizing == 1)
 
 //@ func (*Map).newerTableExists
+//@   serves C13 C14
 //@   requires m != nil
 //@   ensures {C16} effect.nolock: nacquire() == 0 && nblocking() == 0
 
 //@ func (*Map).waitForResize
+//@   serves C13 C14
 //@   requires m != nil
 //@   effect blocking nolocks
 //@   modifies allmem, allghost
@@ -95,6 +98,7 @@ package xsync
 //@   ensures {C13} post.released: nheld() == 0
 
 //@ func (*Map).resize
+//@   serves C13 C14
 //@   requires m != nil && knownTable != nil && tblShape(knownTable) && tblShape(tab(m)) && pow2(m.minTableLen) && 0 <= hint && hint <= 2
 //@   effect blocking nolocks
 //@   modifies allmem, allghost
@@ -103,20 +107,24 @@ package xsync
 //@   ensures {C13} post.released: nheld() == 0
 
 //@ func (*mapTable).sumSize
+//@   serves C13 C14
 //@   requires table != nil && wfslice(table.size)
 //@   loop rangeindex.loop: invariant idx: rangeindex >= -1 && rangeindex < len(table.size)
 //@   ensures {C16} effect.nolock: nacquire() == 0 && nblocking() == 0
 
 //@ func (*mapTable).addSize
+//@   serves C13 C14
 //@   requires table != nil && wfslice(table.size) && pow2(len(table.size))
 //@   modifies allmem
 //@   ensures {C16} effect.nolock: nacquire() == 0 && nblocking() == 0
 
 //@ func (*mapTable).addSizePlain
+//@   serves C13 C14
 //@   requires table != nil && wfslice(table.size) && pow2(len(table.size))
 //@   effect builder
 //@   modifies allmem
 //@ func appendToBucket
+//@   serves C13 C14
 //@   requires b != nil
 //@   effect builder
 //@   modifies allmem, allghost
@@ -125,6 +133,7 @@ package xsync
 //@   ensures {C16} effect.nolock: nacquire() == 0 && nblocking() == 0
 
 //@ func copyBucket
+//@   serves C13 C14
 //@   requires b != nil && (b.topHashMutex & 1) == 0 && destTable != nil && tblShape(destTable)
 //@   effect nolocks builder
 //@   modifies allmem, allghost
@@ -132,6 +141,7 @@ package xsync
 //@   loop for.loop: invariant idx: 0 <= i && i <= 3 && b != nil && rootb == old(b) && destTable == old(destTable) && tblShape(destTable)
 
 //@ func isEmptyBucket
+//@   serves C13 C14
 //@   requires rootb != nil
 //@   effect entersheld addr(rootb.topHashMutex)
 //@   loop for.body: invariant cursor: b != nil
@@ -139,6 +149,7 @@ package xsync
 //@   ensures {C16} effect.nolock: nacquire() == 0 && nblocking() == 0
 
 //@ func (*Map).doCompute
+//@   serves C13 C14
 //@   requires m != nil && valueFn != nil
 //@   requires private tblShape(tab(m)) && pow2(m.minTableLen)
 //@   opaque pure valueFn
@@ -162,15 +173,18 @@ package xsync
 //@ define markOK(w) = (w & 18446743521853636735) == 0
 
 //@ func (*MapOf[K, V]).resizeInProgress
+//@   serves C13 C14
 //@   requires m != nil
 //@   ensures {C16} effect.nolock: nacquire() == 0 && nblocking() == 0
 //@   ensures {C04} post.value: res0 == (m.resizing == 1)
 
 //@ func (*MapOf[K, V]).newerTableExists
+//@   serves C13 C14
 //@   requires m != nil
 //@   ensures {C16} effect.nolock: nacquire() == 0 && nblocking() == 0
 
 //@ func (*MapOf[K, V]).waitForResize
+//@   serves C13 C14
 //@   requires m != nil
 //@   effect blocking nolocks
 //@   modifies allmem, allghost
@@ -178,6 +192,7 @@ package xsync
 //@   ensures {C13} post.released: nheld() == 0
 
 //@ func (*MapOf[K, V]).resize
+//@   serves C13 C14
 //@   requires m != nil && knownTable != nil && tblShapeOf(knownTable) && tblShapeOf(tabOf(m)) && pow2(m.minTableLen) && 0 <= hint && hint <= 2
 //@   effect blocking nolocks
 //@   modifies allmem, allghost
@@ -186,21 +201,25 @@ package xsync
 //@   ensures {C13} post.released: nheld() == 0
 
 //@ func (*mapOfTable[K, V]).sumSize
+//@   serves C13 C14
 //@   requires table != nil && wfslice(table.size)
 //@   loop rangeindex.loop: invariant idx: rangeindex >= -1 && rangeindex < len(table.size)
 //@   ensures {C16} effect.nolock: nacquire() == 0 && nblocking() == 0
 
 //@ func (*mapOfTable[K, V]).addSize
+//@   serves C13 C14
 //@   requires table != nil && wfslice(table.size) && pow2(len(table.size))
 //@   modifies allmem
 //@   ensures {C16} effect.nolock: nacquire() == 0 && nblocking() == 0
 
 //@ func (*mapOfTable[K, V]).addSizePlain
+//@   serves C13 C14
 //@   requires table != nil && wfslice(table.size) && pow2(len(table.size))
 //@   effect builder
 //@   modifies allmem
 
 //@ func appendToBucketOf
+//@   serves C13 C14
 //@   requires b != nil
 //@   effect builder
 //@   modifies allmem, allghost
@@ -209,6 +228,7 @@ package xsync
 //@   ensures {C16} effect.nolock: nacquire() == 0 && nblocking() == 0
 
 //@ func copyBucketOf
+//@   serves C13 C14
 //@   requires b != nil && destTable != nil && tblShapeOf(destTable) && hasher != nil
 //@   effect nolocks builder
 //@   modifies allmem, allghost
@@ -216,6 +236,7 @@ package xsync
 //@   loop for.loop: invariant idx: 0 <= i && i <= 5 && b != nil && rootb == old(b) && destTable == old(destTable) && tblShapeOf(destTable)
 
 //@ func (*MapOf[K, V]).doCompute
+//@   serves C13 C14
 //@   requires m != nil && valueFn != nil && m.hasher != nil
 //@   requires private tblShapeOf(tabOf(m)) && pow2(m.minTableLen)
 //@   opaque pure valueFn
@@ -232,11 +253,13 @@ package xsync
 //@   ensures {C16} fastpath.nolock: loadIfExists && ncall("Load") == 1 && lastret("Load", 1) ==> nacquire() == 0 && nblocking() == 0
 
 //@ func newMapTable
+//@   serves C13 C14
 //@   requires pow2(minTableLen) && minTableLen < 4611686018427387904
 //@   ensures {C11} post.shape: res0 != nil && tblShape(res0) && len(res0.buckets) == minTableLen
 //@   ensures {C16} effect.nolock: nacquire() == 0 && nblocking() == 0
 
 //@ func newMapOfTable
+//@   serves C13 C14
 //@   requires pow2(minTableLen) && minTableLen < 4611686018427387904
 //@   loop rangeindex.loop: invariant idx: rangeindex >= -1 && rangeindex < len(buckets) && wfslice(buckets) && len(buckets) == minTableLen
 //@   ensures {C11} post.shape: res0 != nil && tblShapeOf(res0) && len(res0.buckets) == minTableLen
@@ -244,6 +267,7 @@ package xsync
 
 //@ -- twin-begin Map
 //@ func (*Map).Load
+//@   serves C13 C14
 //@   requires mapInv(m)
 //@   requires private mapRI(m)
 //@   let o = old(view(m))[key]
@@ -295,6 +319,7 @@ package xsync
 //@   ensures mapInv(m)
 
 //@ func (*Map).Range
+//@   serves C13 C14
 //@   requires m != nil && mapInv(m) && f != nil
 //@   requires private tblShape(tab(m))
 //@   reenters mapInv(m)
@@ -315,6 +340,7 @@ package xsync
 //@   ensures mapInv(m)
 
 //@ func (*Map).Size
+//@   serves C13 C14
 //@   requires m != nil && mapInv(m)
 //@   requires private tblShape(tab(m))
 //@   loop rangeindex.loop: invariant idx: rangeindex >= -1
